@@ -325,6 +325,25 @@ theorem hk_boson (D : Nat) (c : GQ) (h : Lat D c) :
   · exact lat_congr D c _ (by simp only [Kind.swapCoeff]; ring) h
   · exact lat_congr D c _ (by simp only [Kind.contractCoeff]; ring) h
 
+/-- quadratures with `ħ` a Gaussian integer (1, 2, 8, …): the lattice is closed under `-c·i·ħ` -/
+theorem hk_quad (D : Nat) (hbar : GQ) (hh : ∃ p q : Int, hbar.re = p ∧ hbar.im = q) (c : GQ) (h : Lat D c) :
+    Lat D ((Kind.quad hbar).swapCoeff c) ∧ Lat D ((Kind.quad hbar).contractCoeff c) := by
+  refine ⟨h, ?_⟩
+  obtain ⟨m, n, h1, h2⟩ := h
+  obtain ⟨p, q, hp, hq⟩ := hh
+  refine ⟨n * p + m * q, n * q - m * p, ?_, ?_⟩
+  · simp only [Kind.contractCoeff, GQ.mul_re, GQ.mul_im, GQ.neg_re, GQ.neg_im, GQ.I_re, GQ.I_im, h1, h2, hp, hq]
+    push_cast; ring
+  · simp only [Kind.contractCoeff, GQ.mul_re, GQ.mul_im, GQ.neg_re, GQ.neg_im, GQ.I_re, GQ.I_im, h1, h2, hp, hq]
+    push_cast; ring
+
+/-- admissible kinds: fermions, bosons, quadratures with `ħ` a Gaussian integer (1, 2, 8, …;
+for `ħ = 1/2` the lattice is not closed under the contraction factor `-iħ`) -/
+def LatticeKind : Kind → Prop
+  | .fermion => True
+  | .boson => True
+  | .quad hbar => ∃ p q : Int, hbar.re = p ∧ hbar.im = q
+
 /-- fermions: the run with the real tolerance and the run with tolerance 0 agree on the lattice -/
 theorem normal_ordered_exact_regime_aux (D : Nat) (hD : 0 < D) (tol : Rat) (h0 : 0 ≤ tol) (h1 : tol * D ≤ 1)
     (a : Op) (la : ∀ e ∈ a, Lat D e.2) (t : Term) :
